@@ -115,6 +115,19 @@ func (k *checker) report(part string, m *mismatch, rec replayRec) {
 	}
 }
 
+// retryInfra runs one replay; a result that is no verdict (a timeout of the harness: the
+// machine stalled) is retried after a pause, a verdict or a clean run is returned at once.
+func retryInfra(f func() *mismatch) *mismatch {
+	var mm *mismatch
+	for attempt := 0; attempt < 3; attempt++ {
+		if mm = f(); mm == nil || mm.kind != "infra" {
+			return mm
+		}
+		time.Sleep(time.Duration(2+3*attempt) * time.Second)
+	}
+	return mm
+}
+
 func parallel(n int, f func(i int)) {
 	var wg sync.WaitGroup
 	ch := make(chan int)
@@ -357,7 +370,7 @@ func replayStream(c *core.Ctx, k *checker, g *mbt.Graph) {
 	seqs := dagTours(g, rng)
 	nTours := len(seqs)
 	seqs = append(seqs, g.Walks(c.Pick(300, 3000), 12, rng)...)
-	passes := c.Pick(1, 3)
+	passes := c.Pick(1, 2)
 	var bytesTotal int64
 	var mu sync.Mutex
 	sampled := false
@@ -369,7 +382,11 @@ func replayStream(c *core.Ctx, k *checker, g *mbt.Graph) {
 			}
 			v := stVariantFor(i + off)
 			seed := c.Seed*1000003 + int64(i)
-			st, mm := stReplay(g, seqs[i], v.Wire, v.Content, v.Dir, seed, false)
+			var st stStats
+			mm := retryInfra(func() (m *mismatch) {
+				st, m = stReplay(g, seqs[i], v.Wire, v.Content, v.Dir, seed, false)
+				return
+			})
 			k.count("stream", fmt.Sprintf("%v|%s", v, seqKey(seqs[i])), st.steps)
 			mu.Lock()
 			bytesTotal += st.bytes
@@ -414,7 +431,11 @@ func replayMux(c *core.Ctx, k *checker, g *mbt.Graph, pModel int) {
 			return
 		}
 		v := mxVariantFor(i + off)
-		steps, mm := mxReplay(g, seqs[i], pModel, v, false)
+		steps := 0
+		mm := retryInfra(func() (m *mismatch) {
+			steps, m = mxReplay(g, seqs[i], pModel, v, false)
+			return
+		})
 		k.count("mconn", fmt.Sprintf("%d/%s/%d/%x|%s", v.Scale, v.Wire, v.RecvBuf, v.IDs, seqKey(seqs[i])), steps)
 		mu.Lock()
 		if !sampled && len(seqs[i]) >= 8 && mm == nil {
@@ -474,7 +495,7 @@ func replayHandshake(c *core.Ctx, k *checker, full *mbt.Graph, hon []string, old
 	seqs := dagTours(g, rng)
 	nTours := len(seqs)
 	seqs = append(seqs, g.Walks(c.Pick(300, 3000), 12, rng)...)
-	passes := c.Pick(1, 4)
+	passes := c.Pick(1, 2)
 	// one world (long-term keys + recorded old sessions) per variant
 	nVar := 60
 	worlds := make([]*hsWorld, nVar)
@@ -509,7 +530,11 @@ func replayHandshake(c *core.Ctx, k *checker, full *mbt.Graph, hon []string, old
 				c.Infra("handshake world: %v", err)
 				return
 			}
-			steps, mm := hsReplay(w, g, seqs[i], false)
+			steps := 0
+			mm := retryInfra(func() (m *mismatch) {
+				steps, m = hsReplay(w, g, seqs[i], false)
+				return
+			})
 			k.count("handshake", fmt.Sprintf("%d|%s", vi, seqKey(seqs[i])), steps)
 			mu.Lock()
 			for _, ei := range seqs[i] {
@@ -548,7 +573,11 @@ func replayHandshake(c *core.Ctx, k *checker, full *mbt.Graph, hon []string, old
 				c.Infra("handshake world: %v", err)
 				return
 			}
-			steps, mm := peerReplay(w, full, paths[i])
+			steps := 0
+			mm := retryInfra(func() (m *mismatch) {
+				steps, m = peerReplay(w, full, paths[i])
+				return
+			})
 			k.count("peer", fmt.Sprintf("%d|%s", vi, seqKey(paths[i])), steps)
 			if mm != nil {
 				// report the plainest instance of a key first: the attacker authenticates with its
@@ -610,7 +639,7 @@ func replayHandshake(c *core.Ctx, k *checker, full *mbt.Graph, hon []string, old
 func recordTraces(c *core.Ctx, k *checker) []*trResult {
 	ps := []int{1024, 32768, 16}
 	wires := []string{"net.Pipe", "tcp", "mem-stream"}
-	n := c.Pick(12, 150)
+	n := c.Pick(9, 150)
 	msgs := c.Pick(50, 80)
 	out := make([]*trResult, n)
 	var wg sync.WaitGroup
@@ -627,7 +656,13 @@ func recordTraces(c *core.Ctx, k *checker) []*trResult {
 			if v.P == 32768 {
 				v.Msgs = msgs / 2
 			}
-			out[i] = trRun(v, c.Seed*977+int64(i))
+			for attempt := 0; attempt < 3; attempt++ {
+				out[i] = trRun(v, c.Seed*977+int64(i))
+				if out[i].mm == nil || out[i].mm.kind != "infra" {
+					break
+				}
+				time.Sleep(3 * time.Second)
+			}
 		}(i)
 	}
 	wg.Wait()
@@ -850,5 +885,4 @@ func runReplayFile(c *core.Ctx, k *checker) {
 	}
 	o := c.Out()
 	o.Traces, o.Evaluations, o.Distinct = k.behaviours, k.steps, len(k.distinct)
-	_ = time.Now
 }
